@@ -146,14 +146,15 @@ def gen_type(rng, ix):
     # every tenth type carries the combination that is rare otherwise: a nested plain parser with BOTH a doc comment and an
     # explicit group_help (the annotation overrides exactly what it names)
     forced = ix % 10 == 3
-    if forced:
+    forced_cmd = ix % 10 == 7       # ... and every tenth one a nested subcommand struct (bare `#[bpaf(command)]`)
+    if forced or forced_cmd:
         kind = "struct"
     t = {"name": "T%d" % ix, "kind": kind, "doc": rng.choice(DOCS + [None])}
     if kind == "struct":
-        t["fields"] = gen_fields(rng, used, True, rng.choice([1, 2, 3, 4]))
+        t["fields"] = gen_fields(rng, used, True, rng.choice([1, 2, 3, 4]), allow_pos=not forced_cmd)
         if not t["fields"]:
             return None
-        if forced or rng.random() < 0.4:
+        if forced or forced_cmd or rng.random() < 0.4:
             # a nested plain parser (derive without `options`): doc comment -> group_help unless given explicitly
             keep = used.fields
             inner_fields = gen_fields(rng, used, True, rng.choice([1, 2]), allow_pos=False)
@@ -164,6 +165,12 @@ def gen_type(rng, ix):
                 if forced:
                     t["inner"]["doc"] = rng.choice(["inner doc", "Group of things"])
                     t["inner"]["group_help"] = "explicit group title"
+                elif (forced_cmd or rng.random() < 0.25) and not any(f["cons"] and f["cons"][0] == "positional" for f in t["fields"]):
+                    # a nested SUBCOMMAND instead: a bare `#[bpaf(command)]` on a multi-word type -- the command name is the
+                    # type name in kebab-case, the doc comment its description
+                    t["inner"]["command"] = True
+                    t["inner"]["group_help"] = None
+                    t["inner"]["name"] = rng.choice(["DryRun", "RunTests", "ListAll", "Sync"]) + "%d" % ix
     elif kind == "tuple":
         n = rng.choice([1, 2, 3])
         fs = []
@@ -320,6 +327,8 @@ class C17(Property):
             groups = [("f", t.get("fields", []))] + [("v%d" % vi, v.get("fields", [])) for vi, v in enumerate(t.get("variants", []))]
             if "inner" in t:
                 groups.append(("i", t["inner"]["fields"]))
+                if t["inner"].get("command"):
+                    q.append("(kebab %s_ic %s)" % (t["name"], gen.hx(t["inner"]["name"])))
                 q.append("(grouphelp %s_gh %s %s)" % (t["name"], "-" if t["inner"]["doc"] is None else gen.hx(t["inner"]["doc"]),
                                                      "-" if t["inner"]["group_help"] is None else gen.hx(t["inner"]["group_help"])))
             for gname, fs in groups:
@@ -395,9 +404,12 @@ class C17(Property):
                     pre = "#[derive(Debug, Clone, PartialEq, Bpaf)]\n" + doc_lines(inn["doc"], "")
                     if inn["group_help"] is not None:
                         pre += "#[bpaf(group_help(%s))]\n" % rs_str(inn["group_help"])
+                    if inn.get("command"):
+                        pre += "#[bpaf(command)]\n"
                     pre += "struct %s {\n%s}\n\n" % (inn["name"], self.fields_src(inn["fields"], True))
                     d = pre + d
-                    extra = "    #[bpaf(external(%s))]\n    inner_part: %s,\n" % (inn["name"].lower(), inn["name"])
+                    fn_name = kebab_py(inn["name"]).replace("-", "_") if inn.get("command") else inn["name"].lower()
+                    extra = "    #[bpaf(external(%s))]\n    inner_part: %s,\n" % (fn_name, inn["name"])
                 nonpos = [f for f in t["fields"] if not (f["cons"] and f["cons"][0] == "positional")]
                 pos = [f for f in t["fields"] if f["cons"] and f["cons"][0] == "positional"]
                 d += "struct %s {\n%s%s%s}\n" % (t["name"], self.fields_src(nonpos, True), extra, self.fields_src(pos, True))
@@ -430,9 +442,14 @@ class C17(Property):
                     inn = t["inner"]
                     il, inames = self.hand_fields(inn["fields"], True)
                     gh = self.plans[t["name"] + "_gh"][1]
+                    if inn.get("command"):
+                        cname = gen.unhx(self.plans[t["name"] + "_ic"][1]).decode()
+                        tail = ".to_options()" + ((".descr(%s)" % rs_str(inn["doc"])) if inn["doc"] is not None else "") + \
+                               ".command(%s)" % rs_str(cname)
+                    else:
+                        tail = "" if gh == "-" else ".group_help(%s)" % rs_str(gen.unhx(gh).decode())
                     h += "        let inner_part = {\n%s        construct!(%s { %s })\n        }%s;\n" % (
-                        il.replace("        let", "            let"), inn["name"], ", ".join(inames),
-                        "" if gh == "-" else ".group_help(%s)" % rs_str(gen.unhx(gh).decode()))
+                        il.replace("        let", "            let"), inn["name"], ", ".join(inames), tail)
                     npos = len([f for f in t["fields"] if f["cons"] and f["cons"][0] == "positional"])
                     names.insert(len(names) - npos, "inner_part")
                 body = "construct!(%s %s)" % (t["name"], ("{ %s }" if named else "(%s)") % ", ".join(names))
@@ -517,7 +534,13 @@ class C17(Property):
         out = [[b"--help"]]
         for _ in range(12):
             if t["kind"] in ("struct", "tuple"):
-                v = self.level_vector(rng, t["fields"] + (t["inner"]["fields"] if "inner" in t else []))
+                if "inner" in t and t["inner"].get("command"):
+                    cname = gen.unhx(self.plans[t["name"] + "_ic"][1]).decode()
+                    snake = cname.replace("-", "_")
+                    v = self.level_vector(rng, t["fields"]) + [rng.choice([cname, cname, cname, snake])] + \
+                        (["--help"] if rng.random() < 0.15 else self.level_vector(rng, t["inner"]["fields"]))
+                else:
+                    v = self.level_vector(rng, t["fields"] + (t["inner"]["fields"] if "inner" in t else []))
             else:
                 var = rng.choice(t["variants"])
                 if var["kind"] == "unit":
